@@ -452,6 +452,8 @@ func (bc *BlockChain) setHeadBeyondRoot(head uint64, root common.Hash, repair bo
 
 				// delete rewounded block data
 				rawdb.DeleteBody(bc.db, newHeadBlock.Hash(), newHeadBlock.Height())
+				// The parts are addressed through the meta: they go first.
+				rawdb.DeleteBlockPart(bc.db, newHeadBlock.Height())
 				rawdb.DeleteBlockMeta(bc.db, newHeadBlock.Height())
 				rawdb.DeleteBlockPart(bc.db, newHeadBlock.Height())
 
